@@ -789,7 +789,12 @@ def pin_hash(fn):
 # sha256 (first 24 hex digits) of the doc-string-free AST of the pinned methods that the hand model was written from
 PINS = {
     "get_ordered_segments_in_groups": "ef0448e201d598dc209b606a",
-    "get_segment_location_info": "4880b93ef91761730ad1e120",
+    "get_segment_location_info": "03efb3811431c2aea0d4628f",
+}
+# earlier shapes that are recognised (and named) but are no longer what the hand model follows
+OLD_PINS = {
+    "4880b93ef91761730ad1e120": "get_segment_location_info before fixes/C13-location-info-stops-at-root.patch "
+                                "(the walk indexes the predecessor of the morphology root: IndexError)",
 }
 
 HEADER = """/-
@@ -864,8 +869,11 @@ def translate_repo(repo):
                 continue
             hs[label] = pin_hash(nodes[0])
             if hs[label] != PINS[key]:
-                gaps.append("%s: Cell.%s is not the text the hand model was written from (pinned AST hash %s, found %s)"
-                            % (label, key, PINS[key], hs[label]))
+                if hs[label] in OLD_PINS:
+                    gaps.append("%s: Cell.%s has an OLD shape: %s" % (label, key, OLD_PINS[hs[label]]))
+                else:
+                    gaps.append("%s: Cell.%s is not the text the hand model was written from (pinned AST hash %s, found %s)"
+                                % (label, key, PINS[key], hs[label]))
         val = hs.get("nml.py") or hs.get("helper_methods.py") or "missing"
         chunks.append("/-- AST hash (doc strings aside) of the pinned `Cell.%s` -/\ndef pin_%s : String := \"%s\"\n" % (key, key, val))
     return HEADER + "\n".join(chunks) + FOOTER, gaps
